@@ -2,7 +2,7 @@
 
 Correspondence (class E throughout: integer-Hz frequencies, labels, error kinds):
   SpectralInformation construction (create_arbitrary_spectral_information / carriers_to_spectral_information)
-      vs Gnpy.Bands.mkSpectrum;   is_in_band / demuxed_spectral_information vs inBand / demux;
+      vs Gnpy.Bands.mkSpectrum;   create_input_spectral_information vs gridChans;   is_in_band / demuxed_spectral_information vs inBand / demux;
   muxed_spectral_information vs mux;   utils.find_common_range vs commonRange;   request.filter_si vs filterSi;
   Edfa.__call__ / Multiband_amplifier.__call__ vs Elem.call;   request.propagate (channel identity) vs propagate.
 Monitor (independent arithmetic on integers): accepted iff no two slots overlap and no baud > slot; the accepted
@@ -27,8 +27,9 @@ THEOREMS = [f'Gnpy.Bands.{t}' for t in (
     'mk_sorted_perm', 'mk_strictly_sorted', 'mk_error_kind', 'mk_accepts_iff', 'mk_rejects_iff', 'mk_rejects_overlap',
     'mk_rejects_baud', 'mk_order_irrelevant', 'propagate_order_irrelevant', 'demux_sublist', 'mux_spec', 'mux_demux',
     'commonRange_spec', 'commonRange_disjoint', 'filterSi_spec', 'filter_idempotent', 'edfaCall_id', 'multibandCall_id',
-    'multiband_no_dup', 'multiband_overlap_rejects', 'path_preserves_channels', 'propagate_spec', 'propagate_rejects')]
-RULE = ('cases from one PRNG: (a) "ctor": 1-12 (thorough: up to 60) carriers with integer-Hz frequencies, mixed baud/slot, '
+    'multiband_no_dup', 'multiband_overlap_rejects', 'path_preserves_channels', 'propagate_spec', 'propagate_rejects', 'grid_valid', 'gridSpectrum_ok', 'grid_inside')]
+RULE = ('cases from one PRNG: (0) "grid": create_input_spectral_information on uniform grids of 0-76 channels whose f_max '
+        'sits on / just before / just after a grid step, baud rate below, at and above the spacing; (a) "ctor": 1-12 (thorough: up to 60) carriers with integer-Hz frequencies, mixed baud/slot, '
         'slots touching, gaps, and with probability ~1/3 a defect (same frequency twice, overlapping slots, baud > slot), '
         'supplied in random order, through both constructors; (b) "bands": a valid spectrum against 1-4 random bands '
         '(edges on slot edges, inside slots, disjoint or overlapping), demux per band and mux of the parts in random order; '
@@ -69,6 +70,8 @@ SINGLE = ['std_low_gain', 'std_low_gain_reduced_band', 'std_medium_gain_C', 'std
 
 def gen(rng, tier, widen=False):
     k = rng.random()
+    if k < 0.06:
+        return gen_grid(rng)
     if k < 0.30:
         return gen_ctor(rng, tier)
     if k < 0.45:
@@ -114,6 +117,15 @@ def gen_ctor(rng, tier):
             car[i]['baud'] = car[i]['slot']          # equal is legal
     rng.shuffle(car)
     return {'kind': 'ctor', 'car': car, 'defect': defect, 'via': rng.choice(['arrays', 'arrays', 'dict'])}
+
+
+def gen_grid(rng):
+    spacing = rng.choice([4, 6, 8, 12, 16]) * 2 * G
+    fmin = 191_300_000_000_000 + rng.choice([0, G, 25_000_000_000])
+    n = rng.choice([0, 1, 2, 5, 20, 76])
+    fmax = fmin + n * spacing + rng.choice([0, 0, G, spacing - G, -G])
+    baud = rng.choice([b for b in S.BAUDS if b <= spacing] + [spacing, spacing + 1_000_000_000])
+    return {'kind': 'grid', 'fmin': fmin, 'fmax': fmax, 'spacing': spacing, 'baud': baud}
 
 
 def gen_bands(rng, tier):
@@ -392,7 +404,7 @@ def _check_built(res, si, car, where):
 # ---------------------------------------------------------------------------------------------------------------------
 
 def run(case, drv):
-    return {'ctor': run_ctor, 'bands': run_bands, 'common': run_common, 'path': run_path, 'call': run_call,
+    return {'grid': run_grid, 'ctor': run_ctor, 'bands': run_bands, 'common': run_common, 'path': run_path, 'call': run_call,
             'malformed': run_malformed}[case['kind']](case, drv)
 
 
@@ -430,6 +442,37 @@ def run_ctor(case, drv):
     res.nontrivial = len(car) >= 2 and (si is None or freqs != sorted(freqs))
     res.stats.update({'ctor': 1, 'ctor_defect_' + str(case['defect']): 1, 'ctor_accepted': int(si is not None),
                       'ctor_via_' + via: 1, 'ctor_channels': len(car)})
+    return res
+
+
+def run_grid(case, drv):
+    """create_input_spectral_information (uniform grid) vs Gnpy.Bands.gridChans + mkSpectrum"""
+    from gnpy.core.info import create_input_spectral_information
+    res = Result()
+    fmin, fmax, sp, baud = case['fmin'], case['fmax'], case['spacing'], case['baud']
+    try:
+        si = create_input_spectral_information(f_min=float(fmin), f_max=float(fmax), roll_off=0.15, baud_rate=float(baud),
+                                               spacing=float(sp), tx_osnr=40.0, tx_power=1e-3)
+        snap = S.snapshot(si)
+        impl = {'ok': [[int(f), int(s), int(b)] for f, s, b in zip(snap['freq'], snap['slot'], snap['baud'])]}
+    except Exception as e:
+        impl = {'err': err_kind(e)}
+    ans = drv.ask('c07.grid', fmin=fmin, fmax=fmax, spacing=sp, baud=baud)
+    model = {'ok': [r[:3] for r in ans['ok']]} if 'ok' in ans else ans
+    res.cmp_exact('create_input_spectral_information', impl, model)
+    # monitor: floor((fmax-fmin)/spacing) channels at fmin + i*spacing, slot = spacing; rejected iff baud > spacing
+    n = max(0, (fmax - fmin) // sp)
+    exp = [[fmin + i * sp, sp, baud] for i in range(1, n + 1)]
+    if fmax < fmin:
+        res.stats['grid_fmax_below_fmin'] += 1        # the property says nothing about such a request
+    elif baud > sp and n > 0:
+        if impl.get('err') != 'SpectrumError':
+            res.fail(f'grid: baud rate {baud} above the spacing {sp} answered {impl.get("err", "accepted")}')
+    elif impl.get('ok') != exp:
+        res.fail(f'grid: uniform grid [{fmin}, {fmax}] / {sp} gave {len(impl.get("ok", []))} channels '
+                 f'({impl.get("err")}), expected {len(exp)} at fmin + i*spacing')
+    res.nontrivial = n >= 2
+    res.stats.update({'grid': 1, 'grid_channels': n, 'grid_rejected': int('err' in impl)})
     return res
 
 
